@@ -2,10 +2,11 @@ mod c14;
 mod c15;
 mod c24;
 mod c25;
+mod c26;
 mod c57;
 mod msref;
 mod util;
 
 fn main() {
-    vmon::run_main(&[("C14", c14::run), ("C15", c15::run), ("C24", c24::run), ("C25", c25::run), ("C57", c57::run)]);
+    vmon::run_main(&[("C14", c14::run), ("C15", c15::run), ("C24", c24::run), ("C25", c25::run), ("C26", c26::run), ("C57", c57::run)]);
 }
